@@ -1807,10 +1807,20 @@ def r16_8(rep):
             used.add(n["f"])
     rep.need(used, "option fields read by serialize_items")
     emptied = {}
-    for path in ("Builder::generate", "Bindings::generate"):
-        b = prog.fn(path)
-        if b is None:
+    # anywhere between the builder and code generation (the option setters themselves only add)
+    for path, b in sorted(prog.bodies.items()):
+        if "::tests::" in path:
             continue
+        for n in b.nodes:
+            if n["k"] == "Assign":
+                t = strip(n["l"])
+                if t.get("k") == "Field" and t.get("adt") == OPT:
+                    r = strip(n["r"])
+                    rc = b.canon(r, 3)
+                    empties = (r.get("k") in ("Call", "MCall") and (rc.startswith("std::vec::Vec::<T>::new(") or "Default>::default(" in rc or rc.startswith("std::vec::Vec::new"))) or \
+                        (r.get("k") == "Array" and not r.get("es"))
+                    if empties:
+                        emptied[t["f"]] = (b, n)
         for c in b.calls():
             callee = c.get("callee") or ""
             if callee in ("std::mem::take", "std::mem::replace") or (c["k"] == "MCall" and c["name"] in ("drain", "clear", "take")):
@@ -2091,3 +2101,67 @@ def r16_13(rep):
                     "the stored name is edited in place (`%s`): the C wrapper of a function taking this typedef names a type C has never "
                     "heard of" % b.canon(x, 4)[:80], b.loc(x))
     rep.need(n >= 5, "assignments to the name local")
+
+
+@RULES.rule("R16.14", "the wrapper file includes every header clang was given: the input headers and the `-include` arguments", floor=2)
+def r16_14(rep):
+    """A wrapper can only call the static function if its header is included.  Headers reach clang in two ways: as `input_headers`
+    and as `-include <header>` clang arguments — which is how all headers but the last one arrive once a configuration has been through
+    `command_line_flags()`.  `serialize_items` has to write an `#include` for both kinds (before the fix only for the first, so the
+    same two-header configuration gave a complete wrapper file directly and an incomplete one through the CLI)."""
+    prog = rep.prog
+    b = rep.need(next((x for p, x in prog.bodies.items() if p.endswith("utils::serialize_items")), None), "utils::serialize_items")
+    # loops that write `#include "<x>"`
+    incs = []
+    for n in b.nodes:
+        if n["k"] == "For" and any(x["k"] == "Lit" and isinstance(x.get("v"), str) and "#include" in x["v"] for x in b.walk(n["body"])):
+            incs.append(n)
+    rep.need(incs, "loops writing `#include` lines in serialize_items")
+    srcs = []
+    for l in incs:
+        src = b.canon(l["iter"], 12)
+        for x in b.walk(l["iter"]):
+            if x["k"] == "Local" and b.local_init(x["id"]) is not None:
+                src += " " + b.canon(b.local_init(x["id"]), 14)
+                for y in b.walk(b.local_init(x["id"])):
+                    if y["k"] == "Lit" and isinstance(y.get("v"), str):
+                        src += " lit:" + y["v"]
+                    if y["k"] == "Field":
+                        src += " ." + y.get("f", "")
+        srcs.append(src)
+    has_inputs = any("input_headers" in s_ for s_ in srcs)
+    has_forced = any("clang_args" in s_ and "-include" in s_ for s_ in srcs)
+    rep.check(has_inputs, "includes:input-headers", "every input header is included", b.loc(incs[0]))
+    rep.check(has_forced, "includes:forced-headers", "every `-include <header>` clang argument is included" if has_forced else
+              "headers given to clang as `-include <header>` are not included in the wrapper file: after a trip through the command line "
+              "that is every input header but the last", b.loc(incs[0]))
+
+
+@RULES.rule("R16.15", "a function with internal linkage that is never defined gets no binding and no wrapper", floor=1)
+def r16_15(rep):
+    """A `static` function exists only where it is defined.  `static int f(int);` without a body in the translation unit (typical for
+    single-header libraries whose bodies sit behind `#ifdef X_IMPLEMENTATION`) has nothing a wrapper could call: `f__extern` would
+    reference an undefined function and the wrapper object would not link, which takes every other wrapper in the file with it.
+    `Function::parse` must leave such declarations out, before anything else is decided about inline functions: an early exit under
+    "internal linkage and `cursor.definition()` is none", not nested in any other condition.  (Before the fix only the `inline`
+    variant was left out, through `is_deleted_function`; an independently seeded change that restricted that test to external linkage
+    is what drew attention to it.)"""
+    import qq
+    prog = rep.prog
+    b = rep.need(prog.impl_fn("parse::ClangSubItemParser", "ir::function::Function", "parse"), "<Function as ClangSubItemParser>::parse")
+    found = None
+    for r in b.walk():
+        if r["k"] != "Ret" or "Err" not in b.canon(r.get("e") or {}, 2):
+            continue
+        atoms = qq.guard_atoms(b, r)
+        pos = [a for a, pol, g in atoms if pol]
+        internal = any("Linkage::Internal" in a for a in pos)
+        nodef = any("Cursor::definition" in a and "is_none" in a for a in pos)
+        if internal and nodef:
+            others = [a for a in pos if "Linkage::Internal" not in a and "Cursor::definition" not in a and not a.startswith("letelse:")]
+            found = (r, others)
+    ok = found is not None and not found[1]
+    rep.check(ok, "undefined-internal-function-skipped", "`Err(Continue)` under internal linkage && no definition, unconditionally" if ok else
+              ("the exit for undefined internal functions is additionally conditioned on `%s`" % found[1][0][:80]) if found else
+              "no early exit for a function with internal linkage and no definition: it is bound (and wrapped) although nothing defines it",
+              b.loc(found[0]) if found else b.loc(b.root))
